@@ -70,7 +70,27 @@ Theorem C09_restricted_macro_definition_is_absent : forall pb a l body a2 l2 c s
   Forall (fun b => is_defend b = false) body ->
   exists s', walk pb (b :: body ++ [BMacro (R "#.") a2 l2])%list (c, s) = (c, s') /\ s' =c= s /\ panicked s' = None.
 Proof. exact restricted_definition_is_absent. Qed.
+(* format-restricted include line and (in the rendering pass) filter line: when the format list does not name the current
+   format, the line searches, reads, renders and runs nothing: control state unchanged, rendering state as it was *)
+Theorem C09_restricted_include_is_absent : forall pb a l c s o s1 f fs s',
+  let b := BMacro (R "If") a l in
+  ifdepth s = 0%nat -> udef s = None -> elided s = false -> bf s = None ->
+  (inl s = true \/ assoc (R "If") (umacros s) = None) ->
+  parse_opts specOptIncludeFile a (set_regs b s) = (o, s1) -> opt "f" o = Some f ->
+  formats_of f s1 = (fs, s') -> existsb (str_eqb (format s)) fs = false ->
+  exists s2, step pb b (c, s) = (c, s2) /\ s2 =c= s /\ panicked s2 = panicked s.
+Proof. exact restricted_include_is_absent. Qed.
+Theorem C09_restricted_filter_line_is_absent : forall pb a l c s o s1 f fs s',
+  let b := BMacro (R "Ft") a l in
+  ifdepth s = 0%nat -> udef s = None -> elided s = false -> bf s = None -> process s = true ->
+  (inl s = true \/ assoc (R "Ft") (umacros s) = None) ->
+  parse_opts specOptFt a (set_regs b s) = (o, s1) -> opt "f" o = Some f ->
+  formats_of f s1 = (fs, s') -> existsb (str_eqb (format s)) fs = false ->
+  exists s2, step pb b (c, s) = (c, s2) /\ s2 =c= s /\ panicked s2 = panicked s.
+Proof. exact restricted_filter_line_is_absent. Qed.
 Print Assumptions C09_false_branch.
+Print Assumptions C09_restricted_include_is_absent.
+Print Assumptions C09_restricted_filter_line_is_absent.
 Print Assumptions C09_restricted_macro_definition_is_absent.
 Print Assumptions C09_restricted_variable_definition_is_absent_partial.
 Print Assumptions C09_true_branch_delimiters_partial.
